@@ -340,14 +340,25 @@ impl Drop for Cqueue {
         // }
 
         // run the rest event
+        // if a select coroutine panicked, `poll` re-throws its panic (only the
+        // first one, see `is_panicking`). We must not leave here before all
+        // the other select coroutines are finished, they still use the cqueue:
+        // keep the panic until the queue is drained
+        let mut panic = None;
         loop {
-            match self.poll(None) {
-                Ok(_) => {}
-                Err(_e @ PollError::Finished) => break,
-                _ => unreachable!("cqueue drop unreachable"),
+            match panic::catch_unwind(panic::AssertUnwindSafe(|| self.poll(None))) {
+                Ok(Ok(_)) => {}
+                Ok(Err(_e @ PollError::Finished)) => break,
+                Ok(_) => unreachable!("cqueue drop unreachable"),
+                Err(e) => panic = Some(e),
             }
         }
         // we are sure that all the coroutines are finished
+        if let Some(e) = panic {
+            if !std::thread::panicking() {
+                panic::resume_unwind(e);
+            }
+        }
     }
 }
 
